@@ -24,7 +24,7 @@ class C02(Prop):
                   "seebuf - the residue scanner behind all five read calls - never faults, never leaves the buffer and rejects bytes >= 0x80 before they index the input map (seebuf_total); the file and alphabet input maps agree on every symbol (inmaps_agree, re-proved against the regenerated tables each run). "
                   "Tie: exact differential run of the executable model (FASTA, EMBL/UniProt, GenBank/DDBJ, daemon, hmmpgmd, suffix/first-line autodetection; Read/ReadInfo/ReadSequence/ReadWindow/ReadBlock) (outcome, message flag, line number, every ESL_SQ field) against the ASan/UBSan/LSan build on mutated formats/* files, generated FASTA with injected NUL/CR/>=0x80/illegal bytes and raw bytes, x B in {1,2,3,7,64,4096}; "
                   "for ALL nine format selections (incl. EMBL/UniProt/GenBank/DDBJ/daemon/hmmpgmd/autodetect/alignment-as-sequences) x text/amino/DNA/RNA x Read/ReadInfo/ReadSequence/ReadWindow/ReadBlock the harness-side monitor checks status in the documented set, message on eslEFORMAT, well-formed ESL_SQ, no exception, no sanitizer report, no leak.")
-    level_note = ("The totality of the whole reader (composition of the primitives through header_fasta / read_nres / Read*) is NOT a theorem: it is covered by the differential run and the sanitizer build. The alignment-as-sequences selections (and files whose format autodetection falls through to the MSA readers) and GuessAlphabet have no model: monitor only (search, not proof). Leaks are LSan only.")
+    level_note = ("The totality of the whole reader (composition of the primitives through header_fasta / read_nres / Read*) is NOT a theorem: it is covered by the differential run and the sanitizer build. The alignment-as-sequences selections (and files whose format autodetection falls through to the MSA readers) and GuessAlphabet have no model: monitor only (search, not proof). Leaks are LSan only. Known finding: reverse-strand ReadWindow over an alignment file returns ill-formed coordinates (known_findings.d/C02.json). Well-formed Stockholm files read as sequences are checked against the dealigned rows by a monitor (no model).")
     assumptions = ["fread returns min(B, remaining) bytes; allocation never fails (eslEMEM paths not modelled)",
                    "alignment files read as sequences, MSA-format autodetection and GuessAlphabet are outside the model: sanitizer + record monitor only",
                    "the model mirrors esl_sqio_ascii.c by hand; fidelity is checked by the differential run only"]
@@ -65,6 +65,10 @@ class C02(Prop):
         raw = [b"", b"\n", b">", b">\n", b"> \n", b">a", b">a\n", b">a\nAC-GT\n", b">a\nAC\x00GT\n", b">a\x00b d\x00e\nAC\n", b">a\nAC\xe9\n", b"AC\n>a\nAC\n", b"\r\r>a\rAC\r>b\rGT",
                b">a\n>b\n>c", b">a d\x01e\nAC", b" \t\n\x0b\x0c\r", b">a\nAC>b\nGT\n", b">a\n1 ACGT\n", b">a\nAC*GT*\n", b"\n\n\nLOCUS   ", b"ID   ", b"LOCUS   x\nORIGIN\n//\n",
                b">" + b"n" * 5000 + b" " + b"d" * 5000 + b"\nAC\n"]
+        # witness of the known finding: reverse-strand windows over an alignment file
+        cs.append({"name": "known-msa-reverse-window", "sticky": 1, "known_key": "C02:readwindow-msa:reverse-strand-coordinates",
+                   "ops": ["file ext=sto hex=" + hx(b"# STOCKHOLM 1.0\n#=GF ID ali0\ns1 ACGU-ACGUAC\ns2 AAAAAAAAAAA\n//\n"), "open fmt=stockholm abc=rna B=4096",
+                           "readwin C=0 W=100", "readwin C=0 W=100", "readwin C=0 W=-3"]})
         for k, data in enumerate(raw):
             ops = ["file ext=dat hex=" + hx(data)]
             for fmt in ("fasta", "unknown", "embl", "genbank", "daemon", "hmmpgmd"):
@@ -106,6 +110,9 @@ class C02(Prop):
         out = []
         for c in range(n):
             r = rng.random()
+            if rng.random() < 0.06:
+                out.append(S.msaseq_case(rng, c))     # a well-formed alignment file read sequentially as sequences (monitor only)
+                continue
             if r < 0.14:
                 # allocation-boundary sweep of every growable ESL_SQ field, in file order, well-formed input, all read calls
                 natural = rng.choice(["embl", "uniprot", "genbank", "ddbj"])
@@ -179,6 +186,9 @@ class C02(Prop):
 
     def monitor(self, ctx, case, out):
         f = S.basic_line_checks(case, out, Failure)
+        if f:
+            return f
+        f = S.monitor_msaseq(case, out)
         if f:
             return f
         for op, l in zip(case["ops"], out):
